@@ -136,6 +136,17 @@ def gen_C20(tier, seed):
             for w in sample(rng, valid_windows(c, r), 12 if tier == "quick" else 60):
                 ws = ",".join(map(str, w))
                 b.case(elem, [root, f"@v({ws}) to_owned", f"@w({ws}) to_owned", f"@w({ws}) vieweq"])
+    # an element type whose `==` is not reflexive for one value (like a float's NaN): `==` on arrays is cell by cell, so an array
+    # holding such a cell is not even equal to itself or to its clone; the hash still agrees
+    NANV = 4242424242
+    for (c, r) in shapes(3):
+        n = c * r
+        for pos in ([None] + sorted(set([0, n - 1, n // 2]))) if n else [None]:
+            d = uniq(n, 10)
+            if pos is not None and 0 <= pos < n:
+                d[pos] = NANV
+            b.case("nan", [f"@ from_vec {c} {r} {fl(d)}", "@ eqself", f"@ eq {c} {r} {fl(d)}", "@ clone", f"@ clone_from {c} {r} {fl(d)}", "@ eqself",
+                           f"@ eq {c} {r} {fl(uniq(n, 10))}", "@ dump"])
     return b.cases
 
 
@@ -845,7 +856,7 @@ def gen_C18(tier, seed):
     rng = random.Random(seed)
     b = Builder("C18")
     maxd = 4 if tier == "quick" else 6
-    for elem in ["u32", "cell"]:
+    for elem in ["u32", "cell", "zst"]:
         for (C, R) in shapes(maxd) + [(1, 9), (9, 1), (7, 5)]:
             d = [rng.choice([0, 1, 7, 4294967295, rng.randrange(2**32)]) for _ in range(C * R)]
             root = f"@ from_vec {C} {R} {fl(d)}"
@@ -942,6 +953,8 @@ def gen_C19(tier, seed):
         for d in docs[i:i + 25]:
             lines.append(f"@ de {rng.choice(TRANSPORTS)} {d}")
         b.case("u32", lines)
+        if (i // 25) % 3 == 0:
+            b.case("zst", lines)          # the element type is a dimension of its own (zero-sized: no allocation, size_of = 0)
     # well-formed documents on the ledgered cell (ownership of the decoded vectors)
     for _ in range(20 if tier == "quick" else 200):
         C, R = rng.choice(shapes(4))
@@ -1340,7 +1353,7 @@ def generate(pid, tier, seed):
 NT = "; a step counts as distinct/non-trivial by the pair (operation line, root state before it)"
 RULES = {
     "C01": "random histories of 10-40 mostly-valid operations (structural, in-place, rejected calls, views, iterators; about one step in eleven is an iterator that panics or lies about its length, or a drain that is leaked) on u32 / ledgered cell / zero-sized elements from shapes <=3x3, `lens` after every step; plus exhaustive depth-3 (4) words over 14 structural operations from 5 tiny shapes" + NT,
-    "C20": "every constructor x dims in {0..4(5),2^32,2^63,2^64-1}^2 x buffer lengths product-1..product+1 x {u32,cell}; slice-built views; conversions on all shapes <=4x4; == / hash against the same cells under every other factorisation, a row or column fewer (prefix / suffix) and a row or column more" + NT,
+    "C20": "every constructor x dims in {0..4(5),2^32,2^63,2^64-1}^2 x buffer lengths product-1..product+1 x {u32,cell}; slice-built views; conversions on all shapes <=4x4; == / hash against the same cells under every other factorisation, == of an array with itself and its clone on an element kind whose == is not reflexive, a row or column fewer (prefix / suffix) and a row or column more" + NT,
     "C02": "all shapes <= 4x4 (5x5), receivers root/ext/view/view_mut/nested (sampled windows), coordinates in {0..dim+1, 2^32, 2^63, 2^64-1, ceil(2^64/stride)..}; every checked accessor and its mutable form; unchecked getters on valid coordinates" + NT,
     "C03": "all parents <= 3x3 (4x4) x all (start,end) in {0..dim+1}^4 x 3 receiver kinds, nested to depth 3 (sampled), slice-built roots, writes through the innermost mutable view" + NT,
     "C04": "all parents <= 4x4 (5x5), sampled windows incl. nested, 27 mutating operations with valid and out-of-range arguments, and mutable iteration (rows_mut / cells_mut / col_mut) along sampled (all, thorough) two-step words over n,b,N0,N1,B0,B1 then collect from either end, each from a fresh root; the whole parent is compared" + NT,
